@@ -453,6 +453,23 @@ def bounded(ctx):
                     if d and len(fails) < 3:
                         fails.append({"input": {"cell": label, "lengths": L, "angles_deg": np.degrees(A).round(3).tolist(), "format": fmt}, "observed": d,
                                       "clause": "save then load reproduces the cell parameters and structure", "key": f"{fmt}-special-cell"})
+            # (c2) labels longer than the classic four characters, and a site on an inversion centre whose zero coordinate is floating-point noise (0.1 + 0.2 - 0.3)
+            for fmt in ("cif", "res", "poscar"):
+                evals += 1
+                try:
+                    els_ = [Element["Cl"], Element["Cl"], Element["H"], Element["C"]]
+                    labs_ = ["Cl10A", "Cl10B", "H12AA", "C1"]
+                    pos_ = np.array([[0.11, 0.27, 0.33], [0.62, 0.05, 0.81], [0.31, 0.44, 0.17], [0.1 + 0.2 - 0.3, 0.5, 0.5]])
+                    c = Crystal(UnitCell.from_lengths_and_angles([7.3, 8.1, 9.4], [np.radians(83), np.radians(99), np.radians(71)]), SpaceGroup(2), AsymmetricUnit(els_, pos_, labels=labs_))
+                    orig, back = roundtrip(c, fmt, tmp)
+                    d = same_unit_cell_atoms(orig, back) if fmt == "poscar" else same_structure(orig, back, fmt, PREC[fmt])
+                    if not d and fmt != "poscar" and [str(x) for x in back.asymmetric_unit.labels] != labs_:
+                        d = {"labels_written": labs_, "labels_read_back": [str(x) for x in back.asymmetric_unit.labels]}
+                except Exception as e:  # noqa
+                    d = {"exception": repr(e)[:200]}
+                if d and len(fails) < 3:
+                    fails.append({"input": {"setting": "2:", "labels": ["Cl10A", "Cl10B", "H12AA", "C1"], "site_4": "(0.1 + 0.2 - 0.3, 1/2, 1/2)", "format": fmt}, "observed": d,
+                                  "clause": "save then load reproduces the structure, site labels included (labels of five characters; a coordinate that is rounding noise around zero)", "key": f"{fmt}-labels-noise"})
             # (d) the format named explicitly (file name without a telling extension), for saving and for loading
             for fmt_kw, fmt in (("cif", "cif"), (".cif", "cif"), ("res", "res"), (".res", "res")):
                 evals += 1
